@@ -96,6 +96,7 @@ func c07(r *ev.Run) {
 	}
 	c07RefreshTriggers(r)
 	c07ConcurrentReconnect(r)
+	c07HealWhileDialing(r)
 	r.Require("histories_judged", int64(reps*len(c07Faults)*3/4))
 	r.Require("new_connections_after_fault", int64(reps*3))
 }
@@ -684,4 +685,86 @@ func c07ConcurrentReconnect(r *ev.Run) {
 		r.Case(fmt.Sprintf("concurrent-reconnect/n%d", nc))
 	}
 	r.Require("concurrent_reconnects_all_served", 2)
+}
+
+// c07HealWhileDialing: the connection to backend A is lost while the proxy is still busy connecting to another backend B (a
+// connect that takes long, e.g. to a black-holed address - here stretched by a pause point). A is reachable the whole time, so
+// requests for A must be served over a new connection without waiting for B's connect to end.
+func c07HealWhileDialing(r *ev.Run) {
+	s, err := startSUT(r, false, 60000, 20)
+	if err != nil {
+		r.Internal("start sut: %v", err)
+		return
+	}
+	defer s.Close()
+	cl, err := fakecluster.New(2, 0)
+	if err != nil {
+		r.Internal("fakecluster: %v", err)
+		return
+	}
+	defer cl.Close()
+	cl.AssignContiguous()
+	cl.LogArgs = false
+	svc, err := startRedisSvc(s, cl, cl.Addrs(), RedisOpts{ConnTimeout: 2 * time.Second})
+	if err != nil || !svc.WaitRouting(1, 10*time.Second) {
+		r.Internal("service did not start: %v", err)
+		return
+	}
+	a, b := cl.Nodes[0], cl.Nodes[1]
+	ka, kb := keysFor(cl, a, 4, "hd")[0], keysFor(cl, b, 4, "hd")[0]
+	const hook = "redis.upstream.create_client.after_dial"
+	reps := 3
+	if r.Tier == "thorough" {
+		reps = 15
+	}
+	for rep := 0; rep < reps; rep++ {
+		ca, err1 := svc.Dial()
+		cb, err2 := svc.Dial()
+		if err1 != nil || err2 != nil {
+			r.Internal("dial")
+			return
+		}
+		ca.DoS(5*time.Second, "SET", ka, "v")
+		cb.DoS(5*time.Second, "SET", kb, "v")
+		// armed first: losing the connection also makes the proxy ask for the slots info, possibly from B - whoever connects to B
+		// first (that refresh or the request below) is held
+		s.HookArm(hook, sutc.HookAction{Mode: "park", Times: 1})
+		b.KillConns(true) // the next request for B has to connect again
+		time.Sleep(40 * time.Millisecond)
+		bDone := make(chan error, 1)
+		go func() { _, err := cb.DoS(10*time.Second, "GET", kb); bDone <- err }()
+		if !s.WaitParked(hook, 1, 3*time.Second) {
+			s.HookRelease(hook)
+			r.Inconclusive("hook-not-reached:" + hook + ":heal-while-dialing")
+			ca.Close()
+			cb.Close()
+			continue
+		}
+		a.KillConns(rep%2 == 0) // A's connection is lost while B's connect is still in progress
+		time.Sleep(60 * time.Millisecond)
+		var failed []string
+		for i := 0; i < 5; i++ {
+			v, err := ca.DoS(1500*time.Millisecond, "GET", ka)
+			if err != nil || v.Kind == resp.Error {
+				failed = append(failed, fmt.Sprintf("%s %v", v.String(), err))
+				if err != nil {
+					ca.Close()
+					ca, _ = svc.Dial()
+				}
+			}
+			time.Sleep(20 * time.Millisecond)
+		}
+		s.HookRelease(hook)
+		<-bDone
+		if len(failed) > 0 {
+			r.Violation("C07:error-while-reachable:connect-to-another-backend-in-flight", fmt.Sprintf("%d of 5 requests for a reachable backend failed while the proxy was connecting to another backend", len(failed)),
+				map[string]interface{}{"failed": failed, "other_backend_connect": "held after the dial by a pause point (a connect that takes as long as its timeout behaves the same)"})
+		} else {
+			r.Count("healed_while_connecting_elsewhere", 1)
+		}
+		r.Case("heal-while-dialing")
+		ca.Close()
+		cb.Close()
+	}
+	r.Require("healed_while_connecting_elsewhere", 2)
 }
